@@ -31,6 +31,14 @@ def shapes(tier, seed):
             for labs, node, p in templates.unary_sequences(("leaf", "X"), LEAFCOLS, 4, "full", labels=big):
                 out.append({"kind": "prog", "eng": eng, "labels": list(labs), "prog": node, "params": p.params,
                             "cons": p.cons, "n": 3})
+    # the merged operations must also *evaluate* like the sequence: the iteration engine really executes a sample of merged trees
+    # (machinery of C01; the merged predicates / sorts / windows are evaluated on several rows by the compiled callables)
+    merged = ("sel a>k", "sel and", "sel not", "sel or", "sel a=b", "slice s:e", "sort a", "sort b,-a", "sort a,-a")
+    for depth in (2, 3):
+        for labs, node, p in templates.unary_sequences(("leaf", "X"), LEAFCOLS, depth, "full", slice_hi=5, labels=merged if depth == 2 else merged[:6]):
+            if len({l.split()[0] for l in labs}) == 1 or depth == 2:  # adjacent operations of one type (what simplify merges), all pairs
+                out.append({"kind": "exec", "c01": {"prog": node, "params": p.params, "cons": p.cons, "nrows": {"X": 3}, "kind": "seq",
+                                                    "decl": "exact", "tag": "merged"}})
     return out
 
 
@@ -70,6 +78,9 @@ def _site(prog, eng, symptom):
 def run_shape(shape, tier):
     if shape["kind"].startswith("slice-lemma"):
         return _slice_lemma(shape)
+    if shape["kind"] == "exec":
+        from . import c01
+        return c01.run_shape(shape["c01"], tier)
     prog = shape["prog"]
     info = {}
 
@@ -183,6 +194,9 @@ def _slice_lemma(shape):
 
 def replay(v):
     r = v["replay"]
+    if "decl" in r and "rows" in r and isinstance(r.get("rows"), dict):
+        from . import c01
+        return c01.replay(v)
     if r.get("kind") == "slice-lemma":
         from lsst.daf.relation import Slice
 
